@@ -124,7 +124,6 @@ Names    == {s \in SeqsUpTo(NameChars, MaxName) : WFName(s)}
 NameSeq  == TLCEval(SetToSeq(Names))
 NN       == Len(NameSeq)
 NameIdx  == 1..NN
-IndexOf  == TLCEval([s \in Names |-> CHOOSE n \in NameIdx : NameSeq[n] = s])
 MT   == TLCEval([p \in TabPats |-> TLCEval({n \in NameIdx : PatMatchesName(p, NameSeq[n])})])   \* documented meaning
 KR   == TLCEval([p \in TabPats |-> KindRank(Kind(p))])
 CT   == TLCEval([p \in TabPats |-> IF KR[p] = 1 THEN TLCEval({n \in NameIdx : ExtMatchesName(p, NameSeq[n])})
